@@ -86,6 +86,9 @@ func init() {
 		"os.Exit":                         ext۰os۰Exit,
 		"os.Getenv":                       ext۰os۰Getenv,
 		"reflect.New":                     ext۰reflect۰New,
+		"reflect.PointerTo":               ext۰reflect۰PointerTo,
+		"reflect.PtrTo":                   ext۰reflect۰PointerTo,
+		"(reflect.rtype).AssignableTo":    ext۰reflect۰rtype۰AssignableTo,
 		"reflect.SliceOf":                 ext۰reflect۰SliceOf,
 		"reflect.TypeOf":                  ext۰reflect۰TypeOf,
 		"reflect.ValueOf":                 ext۰reflect۰ValueOf,
